@@ -276,7 +276,13 @@ pub struct Parser<'a> {
     /// function/name completion even when the surrounding parse succeeds (`SU`,
     /// `A1+F`) or fails for an unrelated reason (`IF(VLOOK`). See that method.
     trailing_name: Option<(String, usize)>,
+    /// Current nesting depth of `parse_expr` (see `MAX_NESTING_DEPTH`).
+    depth: usize,
 }
+
+/// Maximum nesting of expressions. Excel allows 64 nested function calls; each level of the recursive
+/// descent takes a few KiB of stack, so this keeps the parser far away from the end of the stack.
+const MAX_NESTING_DEPTH: usize = 256;
 
 pub fn new_parser_english<'a>(
     worksheets: Vec<String>,
@@ -312,6 +318,7 @@ impl<'a> Parser<'a> {
             language,
             expecting_here: vec![ExpectedTokens::Other],
             trailing_name: None,
+            depth: 0,
         }
     }
     pub fn set_lexer_mode(&mut self, mode: lexer::LexerMode) {
@@ -343,6 +350,7 @@ impl<'a> Parser<'a> {
         // At the top level a formula may start with an expression or a range.
         self.expecting_here = vec![ExpectedTokens::Range, ExpectedTokens::Other];
         self.trailing_name = None;
+        self.depth = 0;
         self.parse_expr()
     }
 
@@ -440,7 +448,24 @@ impl<'a> Parser<'a> {
         None
     }
 
+    // Every nested construct (parentheses, function arguments, array elements) re-enters `parse_expr`;
+    // the depth limit turns pathological nesting into a parse error instead of a stack overflow.
     fn parse_expr(&mut self) -> Node {
+        if self.depth >= MAX_NESTING_DEPTH {
+            return Node::ParseErrorKind {
+                formula: self.lexer.get_formula(),
+                expecting: vec![ExpectedTokens::Other],
+                position: self.lexer.get_position() as usize,
+                message: format!("Formula is nested deeper than {MAX_NESTING_DEPTH} levels"),
+            };
+        }
+        self.depth += 1;
+        let t = self.parse_expr_inner();
+        self.depth -= 1;
+        t
+    }
+
+    fn parse_expr_inner(&mut self) -> Node {
         let mut t = self.parse_concat();
         if let Node::ParseErrorKind { .. } = t {
             return t;
